@@ -288,6 +288,9 @@ func c16Canon(cc canonCombo, base, input string) *fw.Finding {
 		}
 		return nil
 	}
+	if strings.Contains(r.obs.HrefNoFrag, "?") != strings.Contains(obs.HrefNoFrag, "?") {
+		return fw.F("c16:sort-changes-other-parts", subj(input, base), "[%s] base=%q input=%q: profile %q vs underlying %q: sorting only reorders the parameters, it neither adds nor removes the query itself", name, base, input, r.obs.Href, obs.Href)
+	}
 	if blankQuery(r.obs) != blankQuery(obs) {
 		return fw.F("c16:sort-changes-other-parts", subj(input, base), "[%s] base=%q input=%q: profile %q vs expected %q (parts other than the query differ)", name, base, input, r.obs.Href, obs.Href)
 	}
